@@ -88,7 +88,7 @@ fn rkey(r: &ReadRow) -> String {
     format!("{}.{}", r.view, r.accessor)
 }
 
-pub const N_PRIORS: usize = 6;
+pub const N_PRIORS: usize = 8;
 
 /// The prior documents for a row; None when the variant does not apply.
 pub fn prior_doc(r: &Row, prior: usize) -> Option<String> {
@@ -105,6 +105,10 @@ pub fn prior_doc(r: &Row, prior: usize) -> Option<String> {
         3 => Some(format!("X-First: 1\n{}{}X-Last: 2\n", r.base, f)),
         4 => r.sibling.map(|s| format!("{}X-Sib: s\n\n{}{}", s, r.base, f)),
         5 => r.sibling.map(|s| format!("{}\n# between\n\n{}X-Sib: s\n", r.base, s)),
+        // the document does not end in a newline: another field last ...
+        6 => Some(format!("{}{}X-Other: keep", r.base, f)),
+        // ... and the accessor's own field last
+        7 => Some(format!("{}{}", r.base, f).trim_end_matches('\n').to_string()),
         _ => None,
     }
 }
@@ -329,7 +333,7 @@ impl Prop for C15 {
         "exploration"
     }
     fn rule(&self, _t: Tier) -> String {
-        "full product of (accessor pair) x (every value of its menu, plus clearing where supported) x (6 prior states: field absent; present with another value; present with comment lines around and another field after; other fields before and after; inside a two-paragraph document after / before a paragraph of another kind); per view every ordered pair of setters applied in sequence (the text printed after the first is re-read for the second); per view every ordered pair applied to ONE live view without re-reading, also followed by clearing or re-setting the first; every (getter, raw text) row of the reading table; non-trivial = every case".into()
+        "full product of (accessor pair) x (every value of its menu, plus clearing where supported) x (8 prior states: field absent; present with another value; present with comment lines around and another field after; other fields before and after; inside a two-paragraph document after / before a paragraph of another kind; document without final newline with another field / with the accessor's own field last); per view every ordered pair of setters applied in sequence (the text printed after the first is re-read for the second); per view every ordered pair applied to ONE live view without re-reading, also followed by clearing or re-setting the first; every (getter, raw text) row of the reading table; non-trivial = every case".into()
     }
     fn bounds(&self, _t: Tier) -> Value {
         let rs = rows();
